@@ -45,3 +45,6 @@ func (a *Audio) VerifTicks() uint64 { return a.ticks }
 
 // wave RAM is reachable by the CPU while channel 3 plays only just after the channel fetched a sample
 func (a *Audio) VerifWaveAccessible() bool { return a.ch3.sampleTimer < 4 }
+
+func (a *Audio) VerifWaveCell(i uint8) uint8 { return a.ch3.waveram[i&0x0f] }
+func (a *Audio) VerifWaveLast() uint8        { return a.ch3.lastAccessed }
